@@ -42,7 +42,8 @@ const (
 	chainID   = "verif-c02"
 	nValid    = 3 // block ids 0..2 are valid (0 = what createProposalBlock yields)
 	idInvalid = 3 // a block that fails ValidateBlock
-	nIDs      = 6 // ids 4,5: block ids nobody has a block for
+	nPool     = 6 // ids 4,5: block ids nobody has a block for; 0..5 is the pool of the random generators
+	nIDs      = 8 // ids 6,7: the HASH of block 1 / 2 with ANOTHER part-set header (only ever voted by a minority)
 	maxRounds = 40
 )
 
@@ -183,10 +184,14 @@ func makeBlocks(w *world, self int) []blockInfo {
 		}
 		out[i] = blockInfo{b, ps, types.BlockID{Hash: b.Hash(), PartSetHeader: ps.Header()}}
 	}
-	for i := idInvalid + 1; i < nIDs; i++ {
+	for i := idInvalid + 1; i < nPool; i++ {
 		h := sha256.Sum256([]byte(fmt.Sprintf("unknown-block-%d", i)))
 		h2 := sha256.Sum256([]byte(fmt.Sprintf("unknown-parts-%d", i)))
 		out[i] = blockInfo{nil, nil, types.BlockID{Hash: h[:], PartSetHeader: types.PartSetHeader{Total: 1, Hash: h2[:]}}}
+	}
+	for i := nPool; i < nIDs; i++ { // same hash as block 1 / 2, other parts
+		h2 := sha256.Sum256([]byte(fmt.Sprintf("other-parts-%d", i)))
+		out[i] = blockInfo{nil, nil, types.BlockID{Hash: out[i-nPool+1].id.Hash, PartSetHeader: types.PartSetHeader{Total: 1, Hash: h2[:]}}}
 	}
 	return out
 }
@@ -566,6 +571,15 @@ func (s *sim) apply(op string) string {
 			return "bad-op"
 		}
 		run = func() string { return s.node.HandleTimeout(1, int32(r), st) }
+	case "makecommit":
+		r, ok := atoi("r")
+		if !ok || r < 0 {
+			return "bad-op"
+		}
+		if s.halted || s.decided != "" {
+			return "nocommit"
+		}
+		return s.showCommit(s.node.RS().Votes.Precommits(int32(r)), nil, r)
 	case "txs":
 		if len(f) != 1 {
 			return "bad-op"
@@ -582,11 +596,68 @@ func (s *sim) apply(op string) string {
 		} else if rs := s.node.RS(); rs.Height != 1 {
 			blk := s.bstore.LoadBlock(1)
 			sc := s.bstore.LoadSeenCommit(1)
-			s.decided = fmt.Sprintf("%s@%d", s.blockName(blk), sc.Round)
+			s.decided = fmt.Sprintf("%s@%d %s", s.blockName(blk), sc.Round, s.showCommit(rsVotesAt(s, sc.Round), sc, int(sc.Round)))
 			s.events = append(s.events, fmt.Sprintf("decide(%s,%d)", s.blockName(blk), sc.Round))
 		}
 	}
 	return s.stateLine() + " |" + joinEvents(s.events)
+}
+
+// rsVotesAt: after the decision cs.Votes belongs to the next height; the precommits of the commit round
+// live on as cs.LastCommit
+func rsVotesAt(s *sim, round int32) *types.VoteSet {
+	return s.node.RS().LastCommit
+}
+
+// showCommit prints what the REAL VoteSet.MakeCommit builds from a precommit set (or the commit that
+// finalizeCommit built and stored, when given), the canonical vote of every slot, the power in the
+// majority block's bucket, and the verdict of the REAL ValidatorSet.VerifyCommit for the majority block id.
+func (s *sim) showCommit(vs *types.VoteSet, stored *types.Commit, r int) (line string) {
+	if vs == nil {
+		return "nocommit"
+	}
+	maj, ok := vs.TwoThirdsMajority()
+	if !ok || maj.IsZero() {
+		return "nocommit"
+	}
+	defer func() {
+		if p := recover(); p != nil {
+			line = "commit-panic:" + strings.ReplaceAll(fmt.Sprint(p), " ", "_")
+		}
+	}()
+	commit := stored
+	if commit == nil {
+		commit = vs.MakeCommit()
+	}
+	var flags strings.Builder
+	for _, cs := range commit.Signatures {
+		switch cs.BlockIDFlag {
+		case types.BlockIDFlagAbsent:
+			flags.WriteByte('A')
+		case types.BlockIDFlagNil:
+			flags.WriteByte('N')
+		case types.BlockIDFlagCommit:
+			flags.WriteByte('C')
+		default:
+			flags.WriteByte('?')
+		}
+	}
+	slots := make([]string, len(s.w.powers))
+	for i := range slots {
+		if v := vs.GetByIndex(int32(i)); v != nil {
+			slots[i] = s.bidName(v.BlockID)
+		} else {
+			slots[i] = "-"
+		}
+	}
+	vc := "ok"
+	if !commit.BlockID.Equals(maj) {
+		vc = "err:commit-block-id"
+	} else if err := s.w.state.Validators.VerifyCommit(chainID, maj, 1, commit); err != nil {
+		vc = "err:" + strings.ReplaceAll(err.Error(), " ", "_")
+	}
+	return fmt.Sprintf("commit r=%d b=%s bucket=%d sigs=%s votes=%s vc=%s", r, s.bidName(maj),
+		s.sumOf(vs.BitArrayByBlockID(maj)), flags.String(), strings.Join(slots, ","), vc)
 }
 
 func joinEvents(ev []string) string {
@@ -823,6 +894,33 @@ func oracle(c core.Case, out []string) []core.Finding {
 				note("pv", r, m["b"], k)
 			}
 		}
+		// MakeCommit clauses: the commit built from a precommit set with a +2/3 majority for block b
+		// verifies (real VerifyCommit) for exactly b, carries every vote of b's bucket, and more than 2/3
+		if j := strings.Index(out[i], "commit r="); j >= 0 {
+			cl := out[i][j:]
+			if k := strings.Index(cl, " |"); k >= 0 {
+				cl = cl[:k]
+			}
+			sigs, bucket := field(cl, "sigs"), field(cl, "bucket")
+			var cp int64
+			for x, ch := range sigs {
+				if ch == 'C' && x < len(powers) {
+					cp += powers[x]
+				}
+			}
+			bk, _ := strconv.ParseInt(bucket, 10, 64)
+			if vc := field(cl, "vc"); vc != "ok" {
+				add("voteset.MakeCommit.commit-fails-VerifyCommit", fmt.Sprintf("the commit MakeCommit builds for block %s in round %s does not pass VerifyCommit: %s (sigs=%s votes=%s, op %d)", field(cl, "b"), field(cl, "r"), vc, sigs, field(cl, "votes"), i))
+			}
+			if cp < bk {
+				add("voteset.MakeCommit.omits-majority-votes", fmt.Sprintf("the commit for block %s carries power %d but the vote set holds precommits for it of power %d (sigs=%s votes=%s, op %d)", field(cl, "b"), cp, bk, sigs, field(cl, "votes"), i))
+			}
+			if 3*cp <= 2*total {
+				add("voteset.MakeCommit.commit-below-two-thirds", fmt.Sprintf("the commit for block %s carries power %d of %d (sigs=%s, op %d)", field(cl, "b"), cp, total, sigs, i))
+			}
+		} else if strings.Contains(out[i], "commit-panic:") {
+			add("voteset.MakeCommit.panics", "MakeCommit panicked: "+out[i])
+		}
 		parts := strings.SplitN(out[i], " |", 2)
 		if len(parts) != 2 {
 			continue
@@ -953,7 +1051,7 @@ func (g *gen) pickBid(allowNil bool) string {
 	case x < 9:
 		return strconv.Itoa(g.r.Intn(nValid))
 	default:
-		return strconv.Itoa(g.r.Intn(nIDs))
+		return strconv.Itoa(g.r.Intn(nPool))
 	}
 }
 
@@ -1092,7 +1190,7 @@ func (g *gen) move() {
 		}
 		b := g.r.Intn(nValid + 1)
 		if g.r.Intn(12) == 0 {
-			b = g.r.Intn(nIDs)
+			b = g.r.Intn(nPool)
 		}
 		if by == g.s.self && g.r.Intn(3) != 0 {
 			return // only we can sign for ourselves; keep a few as forged-impossible inputs out
@@ -1779,6 +1877,97 @@ func genThreshold(r *rand.Rand) core.Case {
 	return core.Case{Kind: "threshold", Ops: g.ops}
 }
 
+// genCommit: precommit sets that reach a +2/3 majority for a block while (a) one validator's single
+// precommit is for the same block HASH with another part-set header, (b) an equivocator's first precommit
+// is for something else and its second one, for the majority block, is tracked through a peer's maj23
+// claim (before or after the quorum is crossed), (c) nil precommits and absentees fill the rest; then
+// `makecommit` — and, when the node holds the block, the decision with the commit finalizeCommit stored.
+func genCommit(r *rand.Rand) core.Case {
+	sets := [][]int64{{1, 1, 1, 1}, {3, 3, 2, 2, 1, 1, 1}, {3, 3, 2, 2, 1, 1, 1}, {10, 10, 5, 3, 1, 1}, {8, 4, 2, 1, 1}, {1, 1, 1, 1, 1, 1, 1}}
+	w := getWorld(sets[r.Intn(len(sets))])
+	n := len(w.powers)
+	var total int64
+	for _, p := range w.powers {
+		total += p
+	}
+	self := r.Intn(n)
+	line := cfgLine(w, self, r.Intn(2) == 0, false, false)
+	s := newSim(line)
+	defer s.close()
+	g := &gen{r: r, s: s, ops: []string{line}}
+	g.do("timeout r=0 s=newHeight")
+	for rr, upto := 0, r.Intn(2); rr < upto && g.live(); rr++ {
+		g.do(fmt.Sprintf("timeout r=%d s=propose", rr))
+		g.nextRound(rr)
+	}
+	cur := g.curRound()
+	b := 1 + r.Intn(2)   // the block that gets the majority
+	twin := nPool + b - 1 // same hash, other parts
+	holds := r.Intn(2) == 0
+	if holds {
+		g.propose(cur, b, -1, true)
+	}
+	vr := cur
+	if r.Intn(4) == 0 {
+		vr = cur + 1
+	}
+	o := g.others()
+	// roles among the others: odd = votes the twin id, eq = equivocator; only while a quorum stays reachable
+	power := func(xs []int) (p int64) {
+		for _, x := range xs {
+			p += w.powers[x]
+		}
+		return
+	}
+	odd, eq := -1, -1
+	rest := append([]int{}, o...)
+	if r.Intn(3) != 0 && 3*(power(rest)-w.powers[rest[len(rest)-1]]) > 2*total {
+		odd = rest[len(rest)-1]
+		rest = rest[:len(rest)-1]
+	}
+	if r.Intn(3) != 0 && len(rest) > 1 {
+		eq = rest[len(rest)-1] // its vote for b counts (tracked through the claim), so it stays in `rest`
+	}
+	bs := strconv.Itoa(b)
+	if odd >= 0 {
+		g.do(g.voteOp("pc", vr, strconv.Itoa(twin), odd))
+	}
+	eqLate := r.Intn(2) == 0
+	if eq >= 0 {
+		other := []string{"nil", strconv.Itoa(3 - b), strconv.Itoa(twin)}[r.Intn(3)]
+		g.do(g.voteOp("pc", vr, other, eq))
+		g.do(fmt.Sprintf("maj23 t=pc r=%d b=%s peer=%d", vr, bs, 1+r.Intn(3)))
+	}
+	for _, v := range rest {
+		if !g.live() {
+			break
+		}
+		if v == eq && eqLate {
+			continue
+		}
+		g.do(g.voteOp("pc", vr, bs, v))
+		if r.Intn(4) == 0 && g.live() {
+			g.do(fmt.Sprintf("makecommit r=%d", vr))
+		}
+	}
+	if eq >= 0 && eqLate && g.live() {
+		g.do(g.voteOp("pc", vr, bs, eq))
+	}
+	if g.live() {
+		g.do(fmt.Sprintf("makecommit r=%d", vr))
+	}
+	if !holds && g.live() && r.Intn(2) == 0 {
+		// the block arrives only now: the node, waiting in the commit step, finalizes
+		g.do(fmt.Sprintf("block b=%d", b))
+	}
+	if g.live() {
+		g.do(fmt.Sprintf("makecommit r=%d", vr))
+	}
+	g.ops = append(g.ops, "makecommit r=0")
+	stat("commit-cases")
+	return core.Case{Kind: "commit", Ops: g.ops}
+}
+
 func main() {
 	// C02_CFG="1,1,1,1:self:hrs" prints the cfg line for that configuration (for hand-written corpus cases)
 	if e := os.Getenv("C02_CFG"); e != "" {
@@ -1823,6 +2012,9 @@ func main() {
 			for i := 0; i < n/6; i++ {
 				emit(genThreshold(r))
 			}
+			for i := 0; i < n/6; i++ {
+				emit(genCommit(r))
+			}
 			if tier == "thorough" {
 				for i := 0; i < n/10; i++ {
 					emit(genCase(r, "node", 150, 260)) // long runs reaching higher rounds
@@ -1839,7 +2031,7 @@ func main() {
 			}
 			return false
 		},
-		Rule: "a real consensus.State (kvstore app, 3..7 validators from 12 power configurations incl. one validator above 2/3, FilePV or MockPV signer or no key, in-memory stores, nil WAL, recording ticker) driven synchronously; generated adaptively against the live node: proposals by the right/wrong proposer with POL rounds (-2,-1,earlier,round-1,>=round), complete blocks (3 valid, 1 invalid, 2 unknown ids), single votes and quorum bursts for current/earlier/future/catch-up rounds from 3 peers incl. equivocation, bad signatures, out-of-range indices, votes whose (index, address, actual signer) are inconsistent in every combination (incl. kind forged-slots: one validator's address+signature under every index, prevotes and precommits, current/earlier/later rounds), peer maj23 claims, timeouts (scheduled, stale, arbitrary, and in kind=future for rounds not reached), txs-available; scripted scenarios: lock-then-competing-polka, stale-quorum (lock, re-lock in later rounds, then the held-back older quorums for nil/another block, then a different proposal), late-pol (proposal with POL round, prevote at timeout, block completes in step Prevote, then the POL prevotes), locked-pol (locked node; the following rounds' prevotes for the locked block / nil / another block / no quorum arrive on time or after its nil precommit; then complete proposals for other blocks with POLRound -1, <, =, > LockedRound or round-1, before/after the propose timeout), threshold (prevotes/precommits for one value with power exactly quorum-1 — exactly 2/3 where the total is divisible by 3 — or exactly the quorum), after-lock (adaptive: once locked, only quorums of rounds up to the lock round and competing proposals). Non-trivial = the node signed at least one vote; distinct by hash of the op list",
+		Rule: "a real consensus.State (kvstore app, 3..7 validators from 12 power configurations incl. one validator above 2/3, FilePV or MockPV signer or no key, in-memory stores, nil WAL, recording ticker) driven synchronously; generated adaptively against the live node: proposals by the right/wrong proposer with POL rounds (-2,-1,earlier,round-1,>=round), complete blocks (3 valid, 1 invalid, 2 unknown ids, 2 ids sharing a block's hash with another part-set header — voted by a minority only, the model identifies a block by one id), single votes and quorum bursts for current/earlier/future/catch-up rounds from 3 peers incl. equivocation, bad signatures, out-of-range indices, votes whose (index, address, actual signer) are inconsistent in every combination (incl. kind forged-slots: one validator's address+signature under every index, prevotes and precommits, current/earlier/later rounds), peer maj23 claims, timeouts (scheduled, stale, arbitrary, and in kind=future for rounds not reached), txs-available; scripted scenarios: lock-then-competing-polka, stale-quorum (lock, re-lock in later rounds, then the held-back older quorums for nil/another block, then a different proposal), late-pol (proposal with POL round, prevote at timeout, block completes in step Prevote, then the POL prevotes), locked-pol (locked node; the following rounds' prevotes for the locked block / nil / another block / no quorum arrive on time or after its nil precommit; then complete proposals for other blocks with POLRound -1, <, =, > LockedRound or round-1, before/after the propose timeout), commit (precommit majorities with a same-hash/other-parts vote, an equivocator tracked through a peer maj23 claim, nil votes and absentees; makecommit op and the commit stored at the decision, checked with the real VerifyCommit), threshold (prevotes/precommits for one value with power exactly quorum-1 — exactly 2/3 where the total is divisible by 3 — or exactly the quorum), after-lock (adaptive: once locked, only quorums of rounds up to the lock round and competing proposals). Non-trivial = the node signed at least one vote; distinct by hash of the op list",
 		Assumptions: []string{
 			"one height; a block id stands for (hash, part-set header) of a one-part block; signatures ideal (a vote either verifies for its validator or not)",
 			"own messages are processed in FIFO order right after the input that caused them (the 1000-slot internal queue never overflows)",
